@@ -1,11 +1,13 @@
-\* design-level check of the reference codec on the small value space (quick tier)
+\* design-level check of the reference codec on the small value space (quick tier: 12 of the
+\* 19 alphabet bytes for strings, flags to length 2; Wire_mc_thorough.cfg and both generators
+\* use all 19 bytes and flags to length 3 / 4)
 CONSTANTS
-  StrAlpha = {97, 34, 92, 32, 123, 125, 40, 41, 37, 42, 93, 13, 10, 0, 127, 128, 195, 169, 255}
+  StrAlpha = {97, 34, 92, 32, 123, 40, 93, 13, 0, 195, 169, 255}
   StrMax = 2
   MboxAlpha = {97, 38, 45, 34, 92, 32, 13, 233, 8364, 128512}
   MboxMax = 2
   FlagAlpha = {92, 97, 36, 32, 40, 42}
-  FlagMax = 3
+  FlagMax = 2
   TreeLevel = 1
   NestNs = {4}
   Kinds = {"str", "lstr", "mbox", "flag", "attr", "num", "num64", "modseq", "seqset", "uidset", "sres", "list", "nest"}
